@@ -16,7 +16,7 @@ func propC04() *Property {
 	return &Property{
 		ID:      "C04",
 		NeedCG:  false,
-		Decides: "R04.1 the payload of every segment built by a read path is nil or the result of an AEAD open whose error was tested nil; R04.2 every slice bound and read size that drives parsing derives from the unmarshalled (authenticated) metadata, and on the datagram parser each such bound is dominated by a comparison with the remaining length; R04.3 low-entropy decode validates the metadata before touching the encoded body (shared with C17); R04.4 a stream read/decrypt/protocol error ends the event loop (no path back to the next read); R04.5 a datagram that fails decrypt/unmarshal/parse produces no segment (every failure edge reaches the next ReadFrom without a return of a segment); R04.6 segments of a session's own sending direction are refused by the direction whitelist (a reflected datagram authenticates under the same key; folded over all protocol numbers); R04.7 no two AEAD seals share one (key, nonce) pair without associated data separating them; R04.8 on the datagram transport a segment type this end never receives legitimately is dropped with a nil return (never an error, which would close the session) - folded for all 16 protocol numbers on both roles.",
+		Decides: "R04.1 the payload of every segment built by a read path is nil or the result of an AEAD open whose error was tested nil; R04.2 every slice bound and read size that drives parsing derives from the unmarshalled (authenticated) metadata, and on the datagram parser each such bound is dominated by a comparison with the remaining length; R04.3 low-entropy decode validates the metadata before touching the encoded body (shared with C17); R04.4 a stream read/decrypt/protocol error ends the event loop (no path back to the next read); R04.5 a datagram that fails decrypt/unmarshal/parse produces no segment (every failure edge reaches the next ReadFrom without a return of a segment); R04.6 segments of a session's own sending direction are refused by the direction whitelist (a reflected datagram authenticates under the same key; folded over all protocol numbers); R04.7 no two AEAD seals share one (key, nonce) pair without associated data separating them; R04.8 on the datagram transport a segment type this end never receives legitimately is dropped with a nil return (never an error, which would close the session) - folded for all 16 protocol numbers on both roles.; R04.9 what makes a discarded datagram equivalent to a lost one on UDP: data is withheld until the open response while the open request stays retransmittable, and the retransmission scan repairs every loss (R02.7, R02.6)",
 		NotDecided: "AEAD strength; what the application read (run-time); padding content (unauthenticated by design); timing.",
 		Rules: []Rule{
 			{ID: "R04.1", Floor: 4, Text: "segment.payload provenance on the read paths", Run: r04_1},
@@ -25,6 +25,7 @@ func propC04() *Property {
 			{ID: "R04.5", Floor: 4, Text: "PacketUnderlay.readOneSegment: failure edges of Decrypt / Unmarshal / parse* reach the next ReadFrom without returning a segment", Run: r04_5},
 			{ID: "R04.6", Floor: 32, Text: "direction whitelist of Session.input (shared with R05.6)", Run: func(c *RC) { r05_6(c) }},
 			{ID: "R04.8", Floor: 8, Text: "an inserted datagram of the wrong direction is dropped, not fatal: on the packet transport Session.input returns nil for every protocol its peer never sends (folded for 16 protocols x {client, server})", Run: r04_8},
+			{ID: "R04.9", Floor: 8, Text: "a discarded datagram is recovered like a lost one: deferral during open and the retransmission scan (shared with R02.7, R02.6)", Run: func(c *RC) { r02_7(c); r02_6(c) }},
 			{ID: "R04.7", Floor: 2, Text: "AEAD nonce discipline on the packet writer", Run: r04_7},
 		},
 	}
